@@ -20,7 +20,7 @@ K = 'pywbem/_listener.py::WBEMListener.'
 FN = ('ref', 'function')
 CLASS_SPECS = {'function': {'__name__': Str}, 'CIMInstance': {'classname': Str}}
 
-QUEUE = Obj('Queue')
+QUEUE = Obj('Queue', _g_enqueued=Int)
 THREAD = Obj('StoppableThread')
 q_empty = Contract('external::Queue.empty', sig=['self'], returns=Bool, trusted=True)
 q_qsize = Contract('external::Queue.qsize', sig=['self'], returns=Int, trusted=True)
@@ -28,7 +28,10 @@ q_get = Contract('external::Queue.get', sig=['self', 'block=True', 'timeout=None
                  returns=TupleOf(Ref('CIMInstance'), Str, Str), raises={'queue.Empty': Raises()}, trusted=True,
                  notes='A-LIB: returns the oldest item (an (indication, host, msgid) tuple put by _handle_indication) or raises queue.Empty')
 q_put = Contract('external::Queue.put', sig=['self', 'item', 'block=True', 'timeout=None'],
-                 raises={'queue.Full': Raises()}, trusted=True)
+                 modifies=['self._g_enqueued'],
+                 ensures=[('enqueued', 'self._g_enqueued == old(self._g_enqueued) + 1')],
+                 raises={'queue.Full': Raises(post=[('refused', 'self._g_enqueued == old(self._g_enqueued)')])}, trusted=True,
+                 notes='A-LIB: put(block=False) appends the item or raises queue.Full')
 q_task_done = Contract('external::Queue.task_done', sig=['self'], trusted=True)
 t_stop = Contract('external::StoppableThread.stop', sig=['self'], trusted=True)
 t_stopped = Contract('external::StoppableThread.stopped', sig=['self'], returns=Bool, trusted=True)
@@ -81,8 +84,11 @@ CONTRACTS.append(Contract(
     K + '_handle_indication',
     params={'self': LISTENER, 'indication': Ref('CIMInstance'), 'host': Str, 'msgid': Str},
     callees=QCALLEES,
-    ensures=[],
-    raises={'queue.Full': Raises(post=[('queue-existed', 'self._ind_queue is not None')])},
+    ensures=[('acknowledged-only-if-enqueued',
+              'implies(self._ind_queue is not None, self._ind_queue._g_enqueued == old(self._ind_queue._g_enqueued) + 1)')],
+    raises={'queue.Full': Raises(post=[('queue-existed', 'self._ind_queue is not None'),
+                                       ('refused-indication-was-not-enqueued',
+                                        'self._ind_queue._g_enqueued == old(self._ind_queue._g_enqueued)')])},
 ))
 
 deliver_c = Contract(K + '_deliver_indication_to_callbacks', modifies=['$calls'], raises={},
